@@ -280,15 +280,16 @@ impl Prop for SrcProp {
     }
 
     fn gen_cases(&self, tier: Tier) -> u64 {
+        // quick tiers are fixed work sized for 20-40 s on 16 cores; thorough = 6x
         let q = match self.which {
-            Which::C12 => 40_000,
-            Which::C13 => 120_000,
-            Which::C07 => 120_000,
-            _ => 200_000,
+            Which::C12 => 120_000,
+            Which::C13 => 500_000,
+            Which::C07 => 400_000,
+            _ => 800_000,
         };
         match tier {
             Tier::Quick => q,
-            Tier::Thorough => q * 15,
+            Tier::Thorough => q * 6,
         }
     }
 
@@ -346,51 +347,13 @@ impl Prop for SrcProp {
             if let Some(id) = env.known.excluded("C01", &c.src, &root) {
                 return Some(id);
             }
-            // R14: the requested range lies inside an equation
+            // R14: the node range formatting selects for this request is a math node (it lies inside
+            // an equation and not inside code embedded with `#`). Which node that is follows from the
+            // documented selection rule (smallest Expr/Pattern node covering the trimmed request, the
+            // first one in document order), modelled here on the input alone.
             if env.known.active("C13").iter().any(|x| x == "R14") {
                 if let Some((rs, re)) = c.range {
-                    let (rs, re) = (rs.min(c.src.len()), re.min(c.src.len()));
-                    let flat = syn::flatten(&root);
-                    let inside = flat.iter().any(|f| {
-                        f.node.kind() == K::Equation && ((rs > f.start && rs < f.end) || (re > f.start && re < f.end))
-                    });
-                    // ... unless the range lies within code embedded with `#` (then the node is code)
-                    let in_hashed_code = {
-                        // deepest node covering the range
-                        let mut best: Option<usize> = None;
-                        for (i, f) in flat.iter().enumerate() {
-                            if f.start <= rs && f.end >= re && best.is_none_or(|b| f.depth >= flat[b].depth) {
-                                best = Some(i);
-                            }
-                        }
-                        let mut cur = best;
-                        let mut hashed = false;
-                        while let Some(i) = cur {
-                            if flat[i].node.kind() == K::Equation {
-                                break;
-                            }
-                            // previous sibling is a hash?
-                            if let Some(p) = flat[i].parent_idx {
-                                let mut prev: Option<&syn::Flat> = None;
-                                for g in flat.iter().filter(|g| g.parent_idx == Some(p)) {
-                                    if std::ptr::eq(g.node, flat[i].node) {
-                                        break;
-                                    }
-                                    prev = Some(g);
-                                }
-                                if prev.is_some_and(|g| g.node.kind() == K::Hash) && flat[i].start < rs.max(flat[i].start + 1) && flat[i].end > flat[i].start {
-                                    // the covering chain passes through an embedded code expression that
-                                    // strictly contains the range start
-                                    if flat[i].start < rs || flat[i].end > re {
-                                        hashed = true;
-                                    }
-                                }
-                            }
-                            cur = flat[i].parent_idx;
-                        }
-                        hashed
-                    };
-                    if inside && !in_hashed_code {
+                    if r14_math_node_selected(&c.src, &root, rs, re) {
                         return Some("R14".into());
                     }
                 }
@@ -1107,6 +1070,52 @@ fn check_range(c: &SrcCase, env: &Env, st: &mut Stats) -> Verdict {
             }
         }
     }
+}
+
+/// Model of the node selection of range formatting (partial.rs get_node_cover_range_impl), used only
+/// to decide whether a request falls into the domain of finding R14 (a math node is selected).
+fn r14_math_node_selected(src: &str, root: &SyntaxNode, rs: usize, re: usize) -> bool {
+    use crate::syn::{ast, LinkedNode};
+    let (cs, ce) = (rs.min(src.len()), re.min(src.len()));
+    if cs > ce || !src.is_char_boundary(cs) || !src.is_char_boundary(ce) {
+        return false;
+    }
+    let seg = &src[cs..ce];
+    let te = cs + seg.trim_end().len();
+    let ts = te - src[cs..te].trim_start().len();
+    fn select<'a>(n: &LinkedNode<'a>, ts: usize, te: usize) -> Option<LinkedNode<'a>> {
+        for c in n.children() {
+            if let Some(r) = select(&c, ts, te) {
+                return Some(r);
+            }
+        }
+        let r = n.range();
+        let is_markup = n.get().cast::<ast::Markup>().is_some() && n.kind() == K::Markup;
+        let is_document = is_markup && n.parent().is_none();
+        let is_blank = matches!(n.kind(), K::Space | K::Parbreak);
+        let is_method_callee = n.kind() == K::FieldAccess && n.parent_kind() == Some(K::FuncCall) && n.prev_sibling().is_none();
+        let is_paren = n.kind() == K::Parenthesized;
+        let castable = n.get().cast::<ast::Expr>().is_some() || n.get().cast::<ast::Pattern>().is_some();
+        (r.start <= ts && r.end >= te && (is_document || (!is_markup && !is_blank && !is_method_callee && !is_paren && castable))).then(|| n.clone())
+    }
+    let Some(sel) = select(&LinkedNode::new(root), ts, te) else { return false };
+    // walk up: an equation above, and no `#` in front of the node or of an ancestor below the equation
+    let mut cur = Some(sel.clone());
+    let mut below_equation = false;
+    let mut hashed = false;
+    let mut first = true;
+    while let Some(n) = cur {
+        if n.kind() == K::Equation && !first {
+            below_equation = true;
+            break;
+        }
+        if n.prev_sibling_kind() == Some(K::Hash) {
+            hashed = true;
+        }
+        first = false;
+        cur = n.parent().cloned();
+    }
+    below_equation && !hashed
 }
 
 fn deepest_exact(root: &SyntaxNode, s: usize, e: usize) -> String {
